@@ -22,18 +22,24 @@ fn space_for(tier: Tier) -> (Space, usize) {
             s.ast_range("G", 1, 6, 256, 3).ast_range("BR", 1, 3, 64, 3);
             s.ast_range("FX", 1, 4, 64, 6).ast_range("FXA", 1, 4, 64, 6);
             s.ast_range("HI", 1, 4, 64, 4).ast_range("K0E", 1, 3, 64, 3).ast_range("K0S", 1, 3, 64, 3).ast_range("SEQO", 1, 5, 64, 4);
+            s.ast_range("DUP", 1, 4, 16, 4);
             (s, 3)
         }
         Tier::Thorough => {
             s.ast("K0", 5, 128).ast("Q", 4, 128).ast("CL", 4, 128).ast("AN", 5, 128).ast("U", 4, 128).ast("CI", 3, 128);
             // one more level of depth on shorter inputs, restricted to patterns
             // without a quantifier over a possibly-empty body
-            s.ast_range("K0", 6, 6, 256, 3);
+            s.ast_range("K0", 6, 6, 256, 103);
+            // deeper / longer layers, restricted likewise and to quantifier depth 1
+            s.ast_range("K0", 7, 7, 1024, 202).ast_range("Q", 5, 5, 256, 204).ast_range("CL", 5, 5, 128, 203).ast_range("AN", 6, 6, 128, 204);
             s.ast_range("LP", 1, 4, 64, 6);
             s.ast_range("ALT", 1, 4, 64, 4);
             s.ast_range("G", 1, 6, 256, 4).ast_range("BR", 1, 4, 64, 4);
             s.ast_range("FX", 1, 4, 64, 6).ast_range("FXA", 1, 4, 64, 6);
             s.ast_range("HI", 1, 4, 64, 4).ast_range("K0E", 1, 4, 64, 3).ast_range("K0S", 1, 4, 64, 3).ast_range("SEQO", 1, 5, 64, 5);
+            s.ast_range("DUP", 1, 4, 16, 4);
+            // long inputs on small patterns (cursor arithmetic of the scan loops)
+            s.ast_range("KL", 1, 3, 16, 208).ast_range("KL", 4, 4, 32, 206);
             (s, 4)
         }
     }
@@ -69,8 +75,10 @@ impl Check for C01 {
             space::SegKind::Ast { scope, .. } => crate::gen::scope(scope).sigma,
             _ => unreachable!(),
         };
-        let restricted = seg.param > 0 && scope_name.starts_with("K0");
-        let maxlen = if seg.param > 0 { seg.param } else { maxlen };
+        // layer parameter: input-length bound + 100 * restriction (1: no quantifier over a
+        // possibly-empty body; 2: additionally no quantifier nested in a quantifier)
+        let restriction = seg.param / 100;
+        let maxlen = if seg.param % 100 > 0 { seg.param % 100 } else { maxlen };
         let inputs = all_strings(&sigma, maxlen);
         let inputs_c: Vec<Vec<char>> = inputs.iter().map(|s| s.chars().collect()).collect();
         space::for_each_text(seg, lo, hi, &mut |_idx, text| {
@@ -94,8 +102,8 @@ impl Check for C01 {
                 // these layers are only here for their back-reference patterns
                 return;
             }
-            if restricted && parsed.ast.has_nullable_loop() {
-                out.inc("restricted_layer_nullable_loop_skipped");
+            if (restriction >= 1 && parsed.ast.has_nullable_loop()) || (restriction >= 2 && parsed.ast.quant_depth() >= 2) {
+                out.inc("restricted_layer_skipped");
                 return;
             }
             out.inc("patterns");
